@@ -322,9 +322,30 @@ def run_to_completion(state: State, external_event: Union[dict, Event]) -> State
                     head = flow_state.heads[head_uid]
                     element = get_element_from_head(state, head)
                     if element is not None and is_match_op_element(element):
-                        matching_score = _compute_event_matching_score(
-                            state, flow_state, head, event
-                        )
+                        try:
+                            matching_score = _compute_event_matching_score(
+                                state, flow_state, head, event
+                            )
+                        except Exception as e:
+                            # A runtime error in the match statement of one flow must not
+                            # prevent the other flows from receiving the event:
+                            # only the flow with the faulty statement fails.
+                            log.warning(
+                                "Flow '%s' failed due to Colang runtime exception while matching: %s",
+                                flow_state.flow_id,
+                                e,
+                                exc_info=True,
+                            )
+                            colang_error_event = Event(
+                                name="ColangError",
+                                arguments={
+                                    "type": str(type(e).__name__),
+                                    "error": str(e),
+                                },
+                            )
+                            _push_internal_event(state, colang_error_event)
+                            heads_failing.append(head)
+                            continue
 
                         if matching_score > 0.0:
                             # Successful event match
